@@ -188,8 +188,8 @@ def r19_4(run, model):
 
 
 def run(run, model):
-    r19_1(run, model)
-    r19_2(run, model)
-    r19_3(run, model)
-    r19_4(run, model)
+    run.try_rule(r19_1, model)
+    run.try_rule(r19_2, model)
+    run.try_rule(r19_3, model)
+    run.try_rule(r19_4, model)
     run.assume("Go's keyword list is the constant oracle (25 keywords, Go spec)")
